@@ -97,6 +97,11 @@ def api_sequence(model, cls_qual: str):
     return out
 
 
+def _ss_of(ss, gs) -> bool:
+    """the step state handed back is the supervisor's entry of the graph state handed back (not of an earlier stage)"""
+    return any(x == T.mk_attr(gs, "step_state") for x in T.walk(ss))
+
+
 def rule_api(chk: Check, model, rid: str, cls_qual: str, has_start: bool):
     chk.rule(rid, "API composition (A9): run = [start on the first call;] run_until_supervisor ; run_supervisor() — reset = [start ;] "
                   "run_until_supervisor — step = run_supervisor(step_state, output) ; run_until_supervisor, each stage fed with the previous stage's result")
@@ -125,7 +130,7 @@ def rule_api(chk: Check, model, rid: str, cls_qual: str, has_start: bool):
         src = seq[0][4].term if has_start else gs
         chk.add(rid, "reset: stage input", ru[2] == (src,), f"run_until_supervisor gets {[T.show(a)[:60] for a in ru[2]]}", chk.loc(fi, ru[4].node))
         ret = r.ret
-        ok = ret[0] == "tuple" and len(ret[1]) == 2 and ret[1][0] == ru[4].term and mentions(ret[1][1], "supervisor")
+        ok = ret[0] == "tuple" and len(ret[1]) == 2 and ret[1][0] == ru[4].term and mentions(ret[1][1], "supervisor") and _ss_of(ret[1][1], ret[1][0])
         chk.add(rid, "reset returns (graph state, supervisor step state)", ok, f"reset() returns {T.show(ret)[:160]}", chk.loc(fi))
     # step
     fi, r, seq = api["step"]
@@ -137,7 +142,7 @@ def rule_api(chk: Check, model, rid: str, cls_qual: str, has_start: bool):
         chk.add(rid, "step: override forwarded", rs[2] == (gs, S("step_state"), S("output")), f"run_supervisor gets {[T.show(a) for a in rs[2]]}, expected (graph_state, step_state, output)", chk.loc(fi, rs[4].node))
         chk.add(rid, "step: stage input", ru[2] == (rs[4].term,), "run_until_supervisor must continue from run_supervisor's result", chk.loc(fi, ru[4].node))
         ret = r.ret
-        ok = ret[0] == "tuple" and len(ret[1]) == 2 and ret[1][0] == ru[4].term and mentions(ret[1][1], "supervisor")
+        ok = ret[0] == "tuple" and len(ret[1]) == 2 and ret[1][0] == ru[4].term and mentions(ret[1][1], "supervisor") and _ss_of(ret[1][1], ret[1][0])
         chk.add(rid, "step returns (graph state, supervisor step state)", ok, f"step() returns {T.show(ret)[:160]}", chk.loc(fi))
 
 
